@@ -9,7 +9,7 @@ PROPS = {
                 explanation="factor value law v' = v*scale(src)/scale(dst), apply_conversion, Rational::pow, prefix constants, conversion laws as lemmas; OP_CAST arm bounded"),
     "C04": dict(units=["COMPOUND", "EVALOPS"], standin=True, level="proof",
                 explanation="Compound::mul / reconstruct / inner_match / pow preserve (value*scale, dims); eval::{mul,div,pow}; bases_match verified after R15 (Iterator::all inlined)"),
-    "C05": dict(units=["TABLES", "COMPOUND", "EVALUNIT"], standin=True, level="proof",
+    "C05": dict(forbid_seq=[dict(cid="evalwithunit.bias_unread", file="src/eval.rs", seq=".acceleration_bias", what="the recursive call of eval() in the WITH_UNIT arm is assumed to be independent of `bias`: the field `acceleration_bias` is written and never read")], units=["TABLES", "COMPOUND", "EVALUNIT", "EVALWITHUNIT"], standin=True, level="proof",
                 explanation="dimension closure and conversion fraction of each of the 78 derived units and the 21 prefix constants against standards.toml"),
     "C10": dict(units=["RAT", "EVALOPS"], standin=True, level="proof",
                 explanation="Rational::{floor,ceil,round}, builtin::{one,floor,ceil,round} against floor/ceil/half-away-from-zero definitions; FN_CALL arm bounded"),
@@ -27,7 +27,7 @@ PROPS = {
                 explanation="bounded enumeration of operator sequences x parenthesisations x blank layouts against an independent precedence-climbing evaluator; proved components: op() priority table, skip bookkeeping of Parser::{count_skip,skip,eat}, operation()/value()/call_arguments() skip contracts"),
     "C08": dict(units=["DISPLAYCORE", "DISPLAYFMT"], standin=True, level="proof",
                 explanation="Display::fmt (dispatch on the magnitude; the small-fraction path with its leading-zero exponent and digit budget), format_whole and format_big are proved to write exactly small_log / whole_log / big_log into the formatter log: sign, digits of long division (frac_digits) or of the numeral of the integer part, at most `limit` after the first, the mark iff the remainder after the last printed digit is non-zero (or a cut-off integer digit is) and marks are wanted, the exponent; lemma_c08_* turn the logs into the property text (the text reads back to the value cut off toward zero at the last printed digit, mark iff non-zero digits were cut off). emit (digit step) and digits() proved in DISPLAYCORE. Assumed: BigInt::to_string is the decimal numeral, std Display impls of u8 / usize / char / BigInt; the characters produced from the events and digit limit 0 for values below one are covered by the bounded read-back stand-in only"),
-    "C11": dict(units=["POWERS", "RAT", "COMPOUND", "EVALOPS", "EVALUNIT", "EVALARMS", "LEXER", "PARSER", "GRAMMAR", "FROMSTR", "DISPLAYCORE", "DISPLAYFMT"], standin=True, level="proof",
+    "C11": dict(units=["POWERS", "RAT", "COMPOUND", "EVALOPS", "EVALUNIT", "EVALARMS", "LEXER", "PARSER", "GRAMMAR", "FROMSTR", "DISPLAYCORE", "DISPLAYFMT", "EVALWITHUNIT"], standin=True, level="proof",
                 explanation="absence of overflow / failed assertion (former debug_assert!) / unwrap / out-of-bounds in every function under contract, under the stated bounds; error spans are token boundaries (LEXER + PARSER); eval() driver, Db::lookup, Display and the CLI are a bounded token-soup stand-in"),
     "C18": dict(units=["EVALFACT"], standin=True, level="proof",
                 frame_scan=dict(cid="evalfact.frame_scan", idents=["describe", "descriptions"], item_file="src/eval.rs", item="fn eval :: arm SENTENCE | WORD",
@@ -43,7 +43,7 @@ PROPS = {
 
 COMMON_TRUST = [
     "Verus 0.2026.09.13 + bundled Z3, rustc 1.98.1; single-file mode (no linking): every dependency type is a shim with assumed contracts",
-    "extraction rules of DESIGN.md §4: R1 attributes/doc comments stripped, visibility widened; R2 debug_assert -> static obligation; R3 break-value lowering; R4 `&a op &b` -> operator call; R5 for-desugaring; R6 outlining of iterator-adapter / fn-pointer expressions into assumed fns; R7 closure lifting; R8 nested fn hoisting; R9 trait-impl methods emitted as inherent methods / associated types spelled out; R10 type ascription; R11 fn renamed to dodge a Verus name clash; R12 match-arm guard / expression arm spelled as a block; R13 `mut` by-value parameter as an explicit local; R14 contract (ensures) written on a closure; R16 the block of a match arm of eval() lifted to a named fn over its free variables (NUMBER, PERCENTAGE arms; eval() as a whole is outside Verus); R15 `iter.all(closure)` / `values().any(closure)` replaced by the body of the default method Iterator::all / ::any with the closure body at its single call (bases_match, has_numerator); R15 also: `for d in emit(..).take(n)` as the body of Take::next inlined over the lifted closure emit_step (format_whole); R5 also `for _ in a..b` as a counting while loop; R17 `fmt::Display::fmt(x, f)` / `x.fmt(f)` spelled `f.put(x)` (generic over what the argument type shows); R17 `write!(w, FMT, a..)` / `writeln!` spelled as a method call `w.put<k>(FMT, newline, a..)` on a writer shim that logs the piece (lifted `Ok(value)` arm of main())",
+    "extraction rules of DESIGN.md §4: R1 attributes/doc comments stripped, visibility widened; R2 debug_assert -> static obligation; R3 break-value lowering; R4 `&a op &b` -> operator call; R5 for-desugaring; R6 outlining of iterator-adapter / fn-pointer expressions into assumed fns; R7 closure lifting; R8 nested fn hoisting; R9 trait-impl methods emitted as inherent methods / associated types spelled out; R10 type ascription; R11 fn renamed to dodge a Verus name clash; R12 match-arm guard / expression arm spelled as a block; R13 `mut` by-value parameter as an explicit local; R14 contract (ensures) written on a closure; R16 the block of a match arm of eval() lifted to a named fn over its free variables (NUMBER, PERCENTAGE, SENTENCE|WORD, WITH_UNIT arms, the recursive call of eval() in the last being an assumed function of the node; eval() as a whole is outside Verus); R15 `iter.all(closure)` / `values().any(closure)` replaced by the body of the default method Iterator::all / ::any with the closure body at its single call (bases_match, has_numerator); R15 also: `for d in emit(..).take(n)` as the body of Take::next inlined over the lifted closure emit_step (format_whole); R5 also `for _ in a..b` as a counting while loop; R17 `fmt::Display::fmt(x, f)` / `x.fmt(f)` spelled `f.put(x)` (generic over what the argument type shows); R17 `write!(w, FMT, a..)` / `writeln!` spelled as a method call `w.put<k>(FMT, newline, a..)` on a writer shim that logs the piece (lifted `Ok(value)` arm of main())",
     "BigRational viewed as `real`, BigInt as `int` (every operation used is closed on Q); i32/u32/usize arithmetic keeps its overflow obligations (discharged under the stated bounds, never treated as mathematical)",
 ]
 
@@ -60,6 +60,7 @@ SHIM_TRUST = {
     "shims/fmt_shim.rs": "std::fmt::Formatter as a log of events: write_char / write_str record the character / literal, `Display::fmt` of a u8 digit, of a BigInt and `write!(f, \"e{}\", exp)` record WHICH value is shown, not its characters (std / num-bigint Display impls are assumed to print the decimal numeral); a failed write leaves the log unspecified and the function returns the error",
     "shims/numeral_shim.rs": "num-bigint: `BigInt::to_string()` of v >= 1 is a non-empty digit string without a leading zero that spells v and whose length fits usize (axiom_numeral); String::chars().peekable() replaced by a sequence-viewed iterator (next / peek / clone / count)",
     "shims/cli_out.rs": "the output stream of src/bin/any.rs as a log of pieces (format string, what each argument shows, newline): write!/writeln! become put<k> calls (R17); the characters produced by the Display impls of BigInt (num-bigint), rational::Display (C08) and compound::Display (unit names, pluralisation, exponents) are NOT modelled; a failed write leaves the log unspecified and the arm returns the error",
+    "shims/node_children.rs": "syntree child lists as the WITH_UNIT arm walks them: children() yields all children, next() the next child, next_node() the next non-token child (spelled next_any_node, R11, because Children::next_node is already specified over the node view used by eval::unit); the node view of a node's children is a function of the node",
     "shims/syntree_span.rs": "syntree::Span<u32> as plain data; LookupError / ParseIntError / syntree::Error opaque",
 }
 
